@@ -213,6 +213,27 @@ func (m *Model) errorBranchReturns(s *Sink, rule string, fn *ssa.Function, c *ss
 					any = true // a helper with several results hands the error up in one of them
 				}
 			}
+			// handed up as a field of a small result (`condResult{err: obj}`): accepted when every caller is a construct
+			// whose behaviour on a failing condition is decided by case evaluation
+			if !any {
+				for i := range t.Results {
+					if ld, isLd := retSource(t, i).(*ssa.UnOp); isLd && ld.Op == token.MUL {
+						if al, isAl := ld.X.(*ssa.Alloc); isAl && al.Referrers() != nil {
+							for _, ar := range *al.Referrers() {
+								fa, isFA := ar.(*ssa.FieldAddr)
+								if !isFA || fa.Referrers() == nil {
+									continue
+								}
+								for _, fr := range *fa.Referrers() {
+									if st, isSt := fr.(*ssa.Store); isSt && st.Addr == ssa.Value(fa) && (st.Block() == b || errorFactOn(st.Block(), v, true)) && carries(st.Val, 0) && m.callersDecidedByCases(fn) {
+										any = true
+									}
+								}
+							}
+						}
+					}
+				}
+			}
 			if !any {
 				if bad == nil {
 					bad, why = t, "returns something that does not carry the error"
@@ -247,4 +268,38 @@ func (m *Model) errorBranchReturns(s *Sink, rule string, fn *ssa.Function, c *ss
 	} else {
 		s.Violation(rule, key, m.InstrPos(bad), "%s tests the result of e.Eval(%s) with isError, but on the error side it %s: the failure of a sub-expression is swallowed (or left among ordinary results where the callers do not look for it), so the render succeeds with a wrong page", fnKey(fn), valueDesc(c.Call.Args[1]), why)
 	}
+}
+
+// callersDecidedByCases: every call of fn is a static call from the evaluator of a construct whose behaviour on a
+// failing condition is decided by case evaluation of Eval (@if, @breakIf, @continueIf, the ternary), and those case
+// evaluations are decided and good.
+func (m *Model) callersDecidedByCases(fn *ssa.Function) bool {
+	node := m.CG.Nodes[fn]
+	if node == nil || len(node.In) == 0 {
+		return false
+	}
+	for _, e := range node.In {
+		if e.Site == nil || e.Site.Common().StaticCallee() != fn {
+			return false
+		}
+		good := false
+		switch canonFnName(e.Caller.Func) {
+		case "evalIfStmt":
+			cr := m.ifCases()
+			good = cr.decided && len(cr.bad) == 0
+		case "evalBreakIfStmt":
+			bad, decided, _ := m.controlIfCases("BreakIfStmt", "Break")
+			good = decided && bad == ""
+		case "evalContinueIfStmt":
+			bad, decided, _ := m.controlIfCases("ContinueIfStmt", "Continue")
+			good = decided && bad == ""
+		case "evalTernaryExp":
+			bad, decided, _ := m.ternaryCases()
+			good = decided && bad == ""
+		}
+		if !good {
+			return false
+		}
+	}
+	return true
 }
